@@ -146,6 +146,12 @@ TRUSTED["C03"] = [
     "enumeration lemmas for the reference/roving split (pre_multisetup contract, shared with C14): np.delete as the increasing enumeration of the complement",
 ]
 
+TRUSTED["C17"] = [
+    "lazy-sum calculus (sums over a data block as uninterpreted functions of their summand template; the block extent is decided as NumPy's slice clamping decides it)",
+    "mixed-radix index splitting: the flat index of an earlier split gives back those indices",
+    "loop variable Hcov (an accumulated average that is never returned) is declared dead: havoc'ed in the generic iteration, unreadable after the loop",
+]
+
 ASSUMPTIONS = {
     "C09": [
         "a mode-shape vector in a pole table is either entirely non-finite or entirely finite",
@@ -198,7 +204,13 @@ ASSUMPTIONS["C05"] = ["pLSCF_poles: number of model orders enumerated (2 and 3);
 ASSUMPTIONS["C03"] = ["split: number of datasets enumerated (2); channel counts, reference lists (any order) and record lengths symbolic",
                       "identification of the global system is NOT proved: bounded stand-in (labelled bounded)"]
 
+ASSUMPTIONS["C17"] = ["factor clause only: channel/reference counts, block rows, record length and number of blocks nb >= 2 symbolic; N >= 2 nb",
+                      "the main clause (variance = first-order propagation) is NOT proved: bounded stand-in against finite differences (labelled bounded)"]
+
 NOT_DECIDED = {
+    "C17": ["variance = squared directional derivative / sum of squares over several columns: bounded stand-in only (and it fails: open finding)",
+            "the last data block is one sample short when nb divides N (the block slice is clamped to the N-1 available columns) but is still divided by Nb: a small bias the "
+            "property does not speak about; the contract models it exactly"],
     "C03": ["SSI_multi_setup itself (row selection, rescaling by pinv of the reference block, interleaving per block row, shift-invariance solve): exercised by the bounded "
             "stand-in only, not under a deductive contract",
             "that every preprocessing step of MultiSetup_PreGER re-establishes the split is proved under C14 (Inv_M)"],
